@@ -194,7 +194,7 @@ def _bound(tier, name, m, no_prss, policy, prop=None):
         return 1
     if medium:
         return 1
-    return 1 if (m == 2 or (not no_prss and policy == 'eager')) else 0
+    return 1 if m == 2 else 0          # large programs: one deviation with two parties, default schedules with three
 
 
 def plan(prop, tier, seed, programs=None):
